@@ -25,6 +25,13 @@ def digest(obj):
     return zlib.crc32(json.dumps(obj, sort_keys=True, default=str).encode()) & 0x7fffffff
 
 
+def set_digest(r):
+    """Order-insensitive digest of a result (to tell order-only differences from content differences)."""
+    if r[0] != 'ok':
+        return digest(r)
+    return digest(sorted(json.dumps(x, sort_keys=True, default=str) for x in r[1]))
+
+
 def run_query(s, m, line, col):
     try:
         if m == 'get_names':
@@ -67,12 +74,12 @@ def main():
             for (m, line, col) in job['queries']:
                 s = jedi.Script(src, path=path, project=proj, environment=env)
                 r = run_query(s, m, line, col)
-                res.append([digest(r), r[0]])
+                res.append([digest(r), r[0], set_digest(r)])
         else:                                 # all queries, in this order, on ONE Script
             s = jedi.Script(src, path=path, project=proj, environment=env)
             for (m, line, col) in job['queries']:
                 r = run_query(s, m, line, col)
-                res.append([digest(r), r[0]])
+                res.append([digest(r), r[0], set_digest(r)])
         out.append(res)
     json.dump(out, open(sys.argv[2], 'w'))
 
